@@ -83,6 +83,14 @@ def _run_session(sess, kc, out, prefix):
                 pass
             if sess["dirty"] == 1:
                 Metrics.endCollect()
+        if kc.get("prefill") and kc["expr"].get("plus"):
+            # the output is filled from B alone by another populate loop before the judged session; with `prebuilt` the judged session iterates a populate
+            # expression that was built BEFORE that (while the output was still empty)
+            zr_, a_m_, b_m_ = z.getRoot(), used["A"].getRoot(), used["B"].getRoot()
+            if kc.get("prebuilt"):
+                kc = dict(kc, _expr=zr_ << (a_m_ | b_m_))
+            for _m, (z_ref_, b_val_) in zr_ << b_m_:
+                z_ref_ <<= b_val_
         if kc.get("warm") and kc["expr"].get("plus"):
             # the output already holds the result (the same assigning kernel ran on it before, collection off): the judged session then assigns values the
             # references already hold - executed and counted all the same
